@@ -502,8 +502,19 @@ fn process_tags(
                 None
             };
             let gen_result = t.generate_events(context);
+            if matches!(
+                gen_result,
+                Err(SvgdxError::LoopLimitError(..)
+                    | SvgdxError::VarLimitError(..)
+                    | SvgdxError::DepthLimitExceeded(..))
+            ) {
+                // exceeding a limit is final, inside a specs block too: retrying cannot
+                // help, and would re-run side effects (e.g. variable updates) from an
+                // already advanced state
+                return gen_result.map(|_| None);
+            }
             if !context.in_specs {
-                // if we *are* in a specs block, we don't care if there were errors;
+                // if we *are* in a specs block, we don't care if there were (other) errors;
                 // a specs entry may have insufficient context until reuse time.
                 // We do still call generate_events for side-effects including registering
                 // elements for reuse.
@@ -515,16 +526,6 @@ fn process_tags(
                         idx_output.insert(idx, events);
                     }
                 } else {
-                    if matches!(
-                        gen_result,
-                        Err(SvgdxError::LoopLimitError(..)
-                            | SvgdxError::VarLimitError(..)
-                            | SvgdxError::DepthLimitExceeded(..))
-                    ) {
-                        // exceeding a limit is final: retrying cannot help, and would re-run
-                        // side effects (e.g. variable updates) from an already advanced state
-                        return gen_result.map(|_| None);
-                    }
                     if let (Some(el), Err(err)) = (el, gen_result) {
                         if let SvgdxError::MultiError(err_list) = err {
                             for (idx, (el, err)) in err_list {
